@@ -157,7 +157,11 @@ class CHECK(Check):
                   "'method' -> transform parameter, else bound with functools.partial; the routed call IS Fairness.derived; unknown "
                   "method string -> ValueError for difference/ratio, ignored by group_min/group_max; a callable without __name__ "
                   "raises AttributeError (finding F17); equalized odds for ANY pair of disparities incl. NaN/inf (Python max/min, "
-                  "NaN-skipping mean) and worst_case >= each component >= ... mean bounds.")
+                  "NaN-skipping mean) and worst_case >= each component >= ... mean bounds. Review R1: the WHOLE generated family from "
+                  "the lifted METRICS_SPEC (generated_family / generated_eq_spec: 18 of 25 functions, 9 of 16 bases, each base with a "
+                  "first-principles definition incl. TNR, FNR, accuracy, zero-one loss, MAE, MSE; the 7 sklearn-only bases have no "
+                  "theorem and are checked by the correspondence only: generated_bases); to_overall variants of equal opportunity / "
+                  "equalized odds; the overall = 0 branch of ratio(to_overall) (NaN); derived_call_eq_finish (routing + MetricFrame call).")
     design_ref = "DESIGN.md section 4, C03"
     quick_cases = 550
     thorough_cases = 6000
